@@ -692,7 +692,8 @@ def program(seq):
     shown = []
     for e in seq["pool"]:
         src.append("var %s = %s;" % (e["var"], e["expr"]))
-    src.append("var POOL = [%s];" % ", ".join(e["var"] for e in seq["pool"]))
+    # the == matrix covers the hashable pool values (what the property quantifies over); unhashable ones are only rejected
+    src.append("var POOL = [%s];" % ", ".join(e["var"] for e in seq["pool"] if hashable(e["d"])))
     for e in seq["pool"]:
         if hashable(e["d"]):
             src.append('print("P " + show(%s));' % e["var"])
@@ -707,8 +708,9 @@ def program(seq):
 def expectations(seq):
     """Expected header lines (pool rendering, == matrix) and, per op, the answers of the true and the present-hash oracle."""
     head = ["P " + render(e["d"]) for e in seq["pool"] if hashable(e["d"])]
-    for a in seq["pool"]:
-        head.append("M " + "".join("1" if eq_pool(a, b) else "0" for b in seq["pool"]))
+    hp = [e for e in seq["pool"] if hashable(e["d"])]
+    for a in hp:
+        head.append("M " + "".join("1" if eq_pool(a, b) else "0" for b in hp))
     true_map = AbstractMap(eq)
     present_map = AbstractMap(eq_present)
     exp_true, exp_present, hits = [], [], []
@@ -722,8 +724,7 @@ def expectations(seq):
 
 
 def eq_pool(a, b):
-    """`==` between two pool VARIABLES (unhashable values: vec/map compare structurally, the rest by identity —
-    the pool never holds two structurally equal unhashables, so the tag decides)."""
+    """`==` between two (hashable) pool VARIABLES."""
     return eq(a["d"], b["d"])
 
 
@@ -746,9 +747,8 @@ def nontrivial(hits):
     return False
 
 
-def check_printed(seq, printed):
+def check_printed(seq, head, printed):
     """Returns (header error or None, canonical answers per op)."""
-    head, _, _, _ = expectations(seq)
     n = len(head)
     got_head = []
     for l in printed[:n]:
@@ -780,7 +780,12 @@ def run_sequences(ctx, seqs, gc_modes, model_ok, failures, broken, stats):
     # the model (one process for everything)
     mlines, mspans = [], []
     for s in seqs:
-        in_domain = not any(contains_nan_identity(e["d"]) for e in s["pool"])
+        used = []
+        for op in s["ops"]:
+            used.extend(x["d"] for x in ([op["k"]] if "k" in op else []) + ([op["v"]] if "v" in op else []))
+            for a, b in op.get("pairs", []):
+                used.extend([a["d"], b["d"]])
+        in_domain = not any(contains_nan_identity(d) for d in used)
         start = len(mlines)
         if in_domain:
             mlines.append("reset")
@@ -810,7 +815,7 @@ def run_sequences(ctx, seqs, gc_modes, model_ok, failures, broken, stats):
                                      signature="map program failed: %s" % st.get("kind", st["status"]), failing_input=True))
                 continue
             head, exp_true, exp_present, hits = expectations(s)
-            herr, answers = check_printed(s, st.get("printed", []))
+            herr, answers = check_printed(s, head, st.get("printed", []))
             base["expected"] = exp_true
             base["expected_header"] = head
             if herr:
@@ -892,6 +897,8 @@ def check_hash_transcription(model_ok, broken, failures):
             if hashable(m["desc"]):
                 descs.append(m["desc"])
     for a, b in EXPECTED_COLLISIONS:
+        descs.extend([a, b])
+    for a, b in EXPECTED_COLLISIONS:
         if present_hash(a) != present_hash(b) or eq(a, b):
             broken.append("engineered collision does not hold in the Python transcription: %s / %s" % (render(a), render(b)))
     if not model_ok:
@@ -917,9 +924,9 @@ def check_hash_transcription(model_ok, broken, failures):
                     failures.append({"what": "model: == keys with different repaired hashes", "a": render(a), "b": render(b),
                                      "signature": "model hashfixed incoherent", "failing_input": False})
                 if pres[render(a)] != pres[render(b)] and not zero_sign_differs(a, b):
-                    failures.append({"what": "== keys with different present hashes (not a zero-sign pair)", "a": render(a),
-                                     "b": render(b), "signature": "equal keys hash differently", "failing_input": True,
-                                     "program": PRELUDE + "var m = {%s: 1};\nprint(m.get(%s));\n" % (render(a), render(b))})
+                    failures.append({"what": "model: == keys with different PRESENT hashes that are not a zero-sign pair",
+                                     "a": render(a), "b": render(b), "signature": "model present hash incoherent beyond neg-zero",
+                                     "failing_input": False})
     return n
 
 
@@ -952,7 +959,7 @@ def correspondence(ctx, model_ok=True):
                 "==-keyed abstract map (up to the first divergence of a sequence); non-trivial = distinct sequence in which "
                 "at least one operation's key found an entry whose stored key was written by a different expression "
                 "(== but differently built, same entry)",
-        "samples": [json.loads(s) for s in sorted(stats["nontrivial"], key=len)[:2]] + [progs_[0][len(PRELUDE):]],
+        "samples": [json.loads(s) for s in sorted(stats["nontrivial"], key=len)[:2]] + [progs_[0][len(PRELUDE):][:1500]],
         "sequences": stats["sequences"],
         "ops_per_kind": stats["ops"],
         "unhashable_rejections_seen": stats["unhashable"],
